@@ -279,6 +279,32 @@ def podUpdate (c : Cache) (old : Option HPod) (new : HPod) : Cache :=
       updatePod c oldU new.rAlloc (old.map (·.pod)) (some new.pod)
     else c
 
+/-! ### the pod object as the informer delivers it (annotation / phase glue of pod_eventhandler.go) -/
+
+/-- apiext.GetReservationAllocated followed by the handler's `err == nil && ra != nil && ra.UID != ""`:
+    annotation kind 0 = absent, 1 = well-formed with a uid, 2 = malformed JSON, 3 = well-formed with uid "". -/
+def rAllocOf (kind uid : Nat) : Nat := if kind == 1 then uid else 0
+
+/-- util.IsPodTerminated: phase 0 Pending, 1 Running, 2 Succeeded, 3 Failed, 4 Unknown -/
+def podTerminated (phase : Nat) : Bool := phase == 2 || phase == 3
+
+structure XPod where
+  pod     : Pod
+  node    : Nat
+  phase   : Nat
+  annKind : Nat
+  annUid  : Nat
+
+def XPod.toH (x : XPod) : HPod :=
+  { pod := x.pod, node := x.node, term := podTerminated x.phase, rAlloc := rAllocOf x.annKind x.annUid }
+
+/-- podEventHandler.OnAdd / OnUpdate -/
+def xpodUpdate (c : Cache) (old : Option XPod) (new : XPod) : Cache := podUpdate c (old.map XPod.toH) new.toH
+
+/-- podEventHandler.OnDelete: object kind 0 = *Pod, 1 = DeletedFinalStateUnknown{*Pod},
+    2 = DeletedFinalStateUnknown{something else}, 3 = something else (both ignored) -/
+def xpodDelete (c : Cache) (kind : Nat) (p : XPod) : Cache := if kind ≤ 1 then podDelete c p.toH else c
+
 /-! ### queries -/
 
 /-- fitsReservation (plugin.go:973): index 0 of the result = "Too many pods", then one flag per dimension.
